@@ -22,7 +22,8 @@ import z3  # noqa: E402
 from mir import Unsupported  # noqa: E402
 from jobmarket import BrokerModel  # noqa: E402
 from bmc import Protocol  # noqa: E402
-import checks  # noqa: E402
+import checks
+import workerloop  # noqa: E402
 import replay as rp  # noqa: E402
 import validate as tv  # noqa: E402
 
@@ -87,6 +88,30 @@ def load_known():
     return [e for e in json.load(open(p)).get("findings", []) if e.get("status") == "known"]
 
 
+def worker_obligations(pid, mir_text, info, add, violations, inconclusive, only_observation=False):
+    """Obligations on the bfs.rs/dfs.rs worker closures (workerloop.py)."""
+    closures = workerloop.find_worker_closures(mir_text)
+    missing = [k for k in ("bfs", "dfs") if k not in closures]
+    if missing:
+        raise Unsupported(f"worker closure(s) calling JobBroker::pop not found for {missing}")
+    info["worker_closures"] = {}
+    for name in ("bfs", "dfs"):
+        res, winfo = workerloop.obligations(name, closures[name])
+        winfo["mir_sha256"] = hashlib.sha256(closures[name].encode()).hexdigest()[:12]
+        info["worker_closures"][name] = winfo
+        info["functions_encoded"].append(f"checker::{name} worker closure {winfo['function'].split('::')[-1]} (MIR sha256 {winfo['mir_sha256']}, {winfo['blocks']} basic blocks, {winfo['round_paths']} paths per round)")
+        for o in res:
+            if only_observation and "observes a closed market" not in o["obligation"]:
+                continue
+            add(o["obligation"], o["result"], **({"witness": o["witness"]} if o.get("witness") else {}))
+            if o["result"] == "sat":
+                violations.append({"property": pid, "obligation": o["obligation"], "static": True, "witness": o.get("witness")})
+            elif o["result"] != "unsat":
+                inconclusive.append(o["obligation"] + ": " + o["result"])
+    if "on_demand" in closures:
+        info.setdefault("notes", []).append("on_demand.rs worker closure (blocks on a control channel, nested loop) is not encoded")
+
+
 def run(pid, tier, seed, replay_path=None):
     t0 = time.time()
     # VERIF_SEED only perturbs the solver's search (never the encoding or the bounds)
@@ -132,9 +157,15 @@ def run(pid, tier, seed, replay_path=None):
 
         if pid == "C05":
             cfgs = [(2, 10), (3, 8)] if tier == "quick" else [(2, 14), (3, 10)]
+            wcl = workerloop.find_worker_closures(mir_text)
+            forms = {k: workerloop.share_form(k, wcl[k]) for k in ("bfs", "dfs") if k in wcl}
+            if len(forms) != 2 or len(set(forms.values())) != 1:
+                raise Unsupported(f"worker closures of bfs.rs and dfs.rs not found or sharing work differently: {forms}")
+            share = forms["bfs"]
+            info["client_automaton_share_rule"] = {"derived_from_worker_MIR": forms}
             for T, K in cfgs:
                 for spurious in ([False] if tier == "quick" else [False, True]):
-                    proto = Protocol(bm, T, spurious=spurious)
+                    proto = Protocol(bm, T, spurious=spurious, share=share)
                     tag = f"T={T} K={K}" + (" +spurious wake-ups" if spurious else "")
                     r = checks.bmc(proto, K, 1500000)
                     log(f"[C05] BMC {tag}: {r['verdict']} ({r['time']:.0f}s)")
@@ -189,7 +220,9 @@ def run(pid, tier, seed, replay_path=None):
                     violations.append({"property": "C05", "obligation": o["obligation"], "static": True, "witness": o.get("witness")})
                 elif o["result"] != "unsat":
                     inconclusive.append(o["obligation"] + ": " + o["result"])
+            worker_obligations(pid, mir_text, info, add, violations, inconclusive)
         elif pid == "C12":
+            worker_obligations(pid, mir_text, info, add, violations, inconclusive, only_observation=True)
             outs, n_paths = checks.static_timeout(bm)
             info["timeout_thread_paths"] = n_paths
             for o in outs:
@@ -383,6 +416,38 @@ mod verif_replay_static_sleeper {
 }
 '''
 
+WORKER_TEST = r'''
+use stateright::{Checker, Model, Property};
+use std::time::{Duration, Instant};
+
+/// WIDTH independent chains: the frontier keeps WIDTH states for ever (unbounded model).
+struct Wide(u64);
+impl Model for Wide {
+    type State = u64;
+    type Action = ();
+    fn init_states(&self) -> Vec<u64> { (0..self.0).collect() }
+    fn actions(&self, _s: &u64, a: &mut Vec<()>) { a.push(()); }
+    fn next_state(&self, s: &u64, _a: ()) -> Option<u64> { Some(s + self.0) }
+    fn properties(&self) -> Vec<Property<Self>> { vec![Property::always("true", |_, _| true)] }
+}
+
+#[test]
+fn verif_busy_worker_observes_timeout() {
+    let (threads, width, dfs): (usize, u64, bool) = (@THREADS@, @WIDTH@, @DFS@);
+    let (tx, rx) = std::sync::mpsc::channel();
+    std::thread::spawn(move || {
+        let t0 = Instant::now();
+        let b = Wide(width).checker().threads(threads).timeout(Duration::from_millis(300));
+        let n = if dfs { b.spawn_dfs().join().state_count() } else { b.spawn_bfs().join().state_count() };
+        let _ = tx.send((t0.elapsed(), n));
+    });
+    match rx.recv_timeout(Duration::from_millis(300 + 1000 + 4000)) {
+        Ok((d, n)) => println!("stopped after {:?} with {} states", d, n),
+        Err(_) => panic!("VIOLATION busy worker never observes the timeout: threads={} frontier={} dfs={} still running 4 s after a 300 ms timeout (+1 s poll)", threads, width, dfs),
+    }
+}
+'''
+
 STATIC_TEST_LATE = r'''
 #[cfg(test)]
 mod verif_replay_static_late {
@@ -419,6 +484,9 @@ def _native_test(d, code, filt, marker):
         open(p, "w").write(orig)
 
 
+_WORKER_REPLAYS = {}
+
+
 def replay_static(d, pid, v):
     """Static obligations with a native demonstration."""
     if pid == "C12" and "not closed by the timeout thread before the closing time" in v["obligation"]:
@@ -427,6 +495,33 @@ def replay_static(d, pid, v):
         return _native_test(d, STATIC_TEST_LATE, "verif_timeout_closes_after_deadline", "VIOLATION market still open")
     if pid == "C12" and "an unexpired timeout leaves the market untouched" in v["obligation"]:
         return _native_test(d, STATIC_TEST_UNTOUCHED, "verif_unexpired_timeout_leaves_market_untouched", "VIOLATION market altered")
+    if "observes a closed market" in v["obligation"]:
+        w = v.get("witness") or {}
+        threads, width = int(w.get("threads", 1)), max([1] + [int(x) for x in w.get("queue_after_block", [])])
+        if not (1 <= threads <= 8 and 1 <= width <= 64):
+            return None, f"witness outside the replayable range: {w}"
+        code = WORKER_TEST.replace("@THREADS@", str(threads)).replace("@WIDTH@", str(width)).replace("@DFS@", "true" if w.get("checker") == "dfs" else "false")
+        sr = os.path.join(d, "pristine")
+        os.makedirs(os.path.join(sr, "tests"), exist_ok=True)
+        tp = os.path.join(sr, "tests", "verif_worker_timeout.rs")
+        v["replay_test"] = code
+        if code in _WORKER_REPLAYS:
+            return _WORKER_REPLAYS[code]
+        open(tp, "w").write(code)
+        try:
+            env = dict(os.environ)
+            env["CARGO_NET_OFFLINE"] = "true"
+            env["CARGO_TARGET_DIR"] = os.path.join(CACHE_ROOT, "target-mir-native")
+            r = subprocess.run(["cargo", "test", "--offline", "--test", "verif_worker_timeout"], cwd=sr, env=env, stdout=subprocess.PIPE, stderr=subprocess.STDOUT, text=True, timeout=1500)
+            if "VIOLATION busy worker never observes" in r.stdout:
+                _WORKER_REPLAYS[code] = (True, r.stdout[-1500:])
+            elif re.search(r"test result: ok\. 1 passed", r.stdout):
+                _WORKER_REPLAYS[code] = (False, r.stdout[-800:])
+            else:
+                return None, r.stdout[-1500:]
+            return _WORKER_REPLAYS[code]
+        finally:
+            os.remove(tp)
     if pid == "C12" and "wakes every waiter" in v["obligation"]:
         return _native_test(d, STATIC_TEST_SLEEPER, "verif_timeout_wakes_sleeping_worker", "VIOLATION sleeper not woken")
     if pid == "C12" and "not sleeping while holding the market mutex" in v["obligation"]:
@@ -456,13 +551,15 @@ EXPLAIN = {
             "section next, whom notify_one wakes), the block outcomes (jobs consumed/generated) and the stop reasons (finish/target/panic, empty batch). "
             "Obligations: no reachable state where a worker sleeps and nobody can ever move (lost wake-up/deadlock => join returns); while nobody asked to stop, "
             "market + local queues + consumed = initial + generated and nothing is discarded (no batch lost or handed to two workers); no batch in a closed market; "
-            "on a closed market every broker call hands out nothing and never re-opens (stop propagates within one block per worker); an inductive invariant "
+            "on a closed market every broker call hands out nothing and never re-opens (stop propagates within one block per worker); the worker closures of bfs.rs/dfs.rs are executed symbolically from their MIR one round at a time "
+            "(pop only on an empty queue, the popped batch is the queue worked on, exactly one block per round on the worker's own non-empty queue, nothing dropped while it keeps going, it leaves only after an empty batch / met finish condition / target count, "
+            "every round of a busy worker observes a closed market, a panic unwinds through the broker's Drop) and the client automaton's sharing rule is derived from them; an inductive invariant "
             "(open => open_count = #active workers, last-worker rule never closes while work exists) proves the quiescence detection for schedules of ANY length."),
     "C12": ("Timeout clause of the run controls, decided from the MIR of the timeout thread (JobBroker::new::{closure#0}) with the clock a symbolic value: "
             "an iteration that sees closing_time < now closes the market and exits (dropping its broker clone, whose Drop wakes all waiters); before that it "
             "leaves the market untouched and goes back to sleep for one period - so the market is closed at most one sleep period plus one critical section "
             "after expiry, for every thread count; it never sleeps while holding the market mutex (an unexpired timeout takes no progress away from the "
-            "workers); once closed, every worker's NEXT broker call (pop/split_and_push/push) observes it and hands out nothing. (Whether a busy worker makes another broker call at all is decided by the checker's worker loop, which is outside this check: see 'outside'.)"),
+            "workers); once closed, every worker's NEXT broker call (pop/split_and_push/push) observes it and hands out nothing. That a busy worker makes such a call is decided on the MIR of the bfs.rs/dfs.rs worker closures, executed symbolically one round at a time (queue lengths, thread count, block outcome, finish verdict symbolic): a round without a broker call that observes the market must end with an empty queue (so the next round starts with pop) - otherwise rounds that never look at the market can follow each other for ever and the timeout is ignored."),
 }
 BOUNDS = {
     "C05": {"quick": {"threads": "2 (K=10), 3 (K=8)", "jobs_per_queue": "<=6", "generated_per_block": "<=2", "market_batches": "<=4", "invariant": "inductive: any schedule length, T=2 and T=3"},
@@ -470,14 +567,15 @@ BOUNDS = {
     "C12": {"quick": {"paths": "all paths of one loop iteration of the timeout thread, arbitrary market state and clock"}, "thorough": {"paths": "same (the check is not bounded in schedule length)"}},
 }
 OUTSIDE = {
-    "C05": ["equality of the evaluated state set / verdicts with the single-threaded run (needs check_block + DashMap arbitration; see C01)", "more than 3 worker threads, longer schedules for the BMC obligations", "memory-model effects (all shared state is mutex-protected)", "OS scheduling fairness; the timeout stop reason (see C12)"],
-    "C12": ["that a busy worker calls the broker again after expiry: the worker loops only call split_and_push when pending.len() > 1 && thread_count > 1, so a single-threaded run, or a frontier that never exceeds one state, never observes the closed market on an unbounded model (seen by reading and by a seeded-change demonstration; not decided by this check)", "HasDiscoveries::matches / finish_when, target_state_count, target_max_depth wiring in the worker closures and BFS depth completeness (checker loops)", "simulation seeding (RNG + HashSet) and the simulation checker's own shutdown flag", "wall-clock accuracy of real sleeps"],
+    "C05": ["equality of the evaluated state set / verdicts with the single-threaded run (needs check_block + DashMap arbitration; see C01)", "more than 3 worker threads, longer schedules for the BMC obligations", "memory-model effects (all shared state is mutex-protected)", "OS scheduling fairness; the timeout stop reason (see C12)", "the on_demand.rs worker closure (not encoded)"],
+    "C12": ["the on_demand.rs worker closure (same sharing code, blocks on a control channel; not encoded - OnDemandChecker::join cannot return anyway)", "the length of one block of work (check_block evaluates up to 1500 states between two broker calls)", "HasDiscoveries::matches / finish_when, target_state_count, target_max_depth wiring in the worker closures and BFS depth completeness (checker loops)", "simulation seeding (RNG + HashSet) and the simulation checker's own shutdown flag", "wall-clock accuracy of real sleeps"],
 }
 ASSUME = [
     "crate `log` replaced by a model whose macros expand to nothing",
     "crate `parking_lot` replaced by a model exposing lock / wait / notify_one / notify_all / guard drop as sync points; contract: mutual exclusion, wait releases and re-acquires atomically, notify_one wakes at most one CURRENT waiter (solver-chosen), notify_all all current waiters; spurious wake-ups allowed in the thorough variant",
     "Vec<VecDeque<Job>> / VecDeque<Job> abstracted to their lengths (jobs are opaque and conserved by new/len/is_empty/clear/push/pop/split_off); job_batches capacity 4 in the model (exceeding it is reported, not ignored)",
-    "the worker loop of the client automaton mirrors the spawn() closures of bfs.rs/dfs.rs/on_demand.rs; the set of JobBroker methods they call is re-read from the MIR on every run",
+    "the worker loop of the BMC's client automaton (pop on empty queue -> one block -> stop | split_and_push -> ...) is checked against the MIR of the bfs.rs/dfs.rs spawn() closures on every run (worker-loop obligations) and its sharing rule (`len > 1 && thread_count > 1` or unconditional) is derived from that MIR; the on_demand.rs closure is not encoded",
+    "worker closures: check_block sets the local queue to an arbitrary length, HasDiscoveries::matches returns an arbitrary bool, atomic loads arbitrary values, JobBroker::pop an arbitrary batch, split_and_push leaves an arbitrary part of the queue; any other callee that is handed neither the broker nor a queue returns an arbitrary value of its type and cannot reach them (both are owned by the closure); a callee that is handed one and has no model makes the check inconclusive",
 ]
 
 
